@@ -29,6 +29,16 @@ def _recycled(kind, make, refill):
     return obj
 
 
+def _shuffled(items):
+    """in the recycling pass the entries of a transition relation are inserted in a shuffled (but reproducible) order: the iteration
+    order of a dict is its insertion order, and nothing may depend on transitions of one state being adjacent"""
+    items = list(items)
+    if _RECYCLE and len(items) > 2:
+        import random
+        random.Random(len(items) * 7919 + sum(len(str(x)) for x in items)).shuffle(items)
+    return items
+
+
 def _reset(container, items):
     container.clear()
     container.update(items)
@@ -96,7 +106,7 @@ def re_str(t):
 # ---------------------------------------------------------------- Turing machines
 def tm_obj(c):
     from gambatools.tm import TM
-    delta = {(p, a): (q, b, d) for (p, a, q, b, d) in c['delta']}
+    delta = {(p, a): (q, b, d) for (p, a, q, b, d) in _shuffled(c['delta'])}
 
     def refill(T):
         _reset(T.Q, c['Q'])
@@ -118,7 +128,7 @@ def tm_text(c):
 # ---------------------------------------------------------------- DFA / NFA (case dicts <-> gambatools objects)
 def dfa_obj(c, check=True):
     from gambatools.dfa import DFA
-    delta = {(q, a): q1 for (q, a, q1) in c['delta']}
+    delta = {(q, a): q1 for (q, a, q1) in _shuffled(c['delta'])}
 
     def refill(D):
         _reset(D.Q, c['Q'])
@@ -145,7 +155,7 @@ def nfa_obj(c, plain_dict=False):
     from collections import defaultdict
     from gambatools.nfa import NFA
     delta = {} if plain_dict else defaultdict(set)
-    for (q, a, qs) in c['delta']:
+    for (q, a, qs) in _shuffled(c['delta']):
         delta[(q, a)] = set(qs)
 
     def refill(N):
@@ -223,7 +233,7 @@ def pda_obj(c):
     from collections import defaultdict
     from gambatools.pda import PDA
     delta = defaultdict(set)
-    for (p, a, u, q, v) in c['delta']:
+    for (p, a, u, q, v) in _shuffled(c['delta']):
         delta[(p, a, u)].add((q, v))
 
     def refill(P):
